@@ -217,6 +217,9 @@ def build(entry, rs):
         Xr = rs.standard_normal([n] + fsh)
         y = rs.standard_normal(n)
         kind = gen.choice(rs, ["cp", "tucker", "plsr", "CP", "Tucker", "Parafac2", "TensorRingALS", "RandomizedCP", "ConstrainedCP", "CP_NN_HALS"])
+        other = bool(rs.rand() < 0.5)
+        Xr2, y2 = rs.standard_normal([n] + fsh), rs.standard_normal(n)
+        Xd2 = np.abs(rs.standard_normal(X.shape)) + 0.1
 
         def f(s):
             if kind in ("cp", "tucker", "plsr"):
@@ -226,6 +229,8 @@ def build(entry, rs):
                 grab = {"cp": lambda e: [e.weight_tensor_], "tucker": lambda e: [e.weight_tensor_], "plsr": lambda e: list(e.X_factors)}[kind]
                 e = mk()
                 first = grab(e.fit(Xr, y))
+                if other:     # a fit on other data in between must leave no trace
+                    e.fit(Xr2, y2)
                 refit = grab(e.fit(Xr, y))
                 c = mk().set_params(**e.get_params())
                 clone = grab(c.fit(Xr, y))
@@ -238,16 +243,20 @@ def build(entry, rs):
                     sl = [np.abs(Xr[i]) for i in range(3)]
                     e = D.Parafac2(rank=2, n_iter_max=it, random_state=s, return_errors=True)
                     first = e.fit_transform(sl)
+                    if other:
+                        e.fit_transform([np.abs(Xr2[i]) for i in range(3)])
                     refit = e.fit_transform(sl)
                     clone = D.Parafac2(rank=2, n_iter_max=it, random_state=s, return_errors=True).fit_transform(sl)
                 else:
                     Cls = getattr(D, kind)
                     e = Cls(random_state=s, **kw)
                     first = e.fit_transform(Xd)
+                    if other:
+                        e.fit_transform(Xd2)
                     refit = e.fit_transform(Xd)
                     clone = Cls(random_state=s, **kw).fit_transform(Xd)
             return {"a_first": first, "b_refit": refit, "c_clone": clone}
-        return f, dict(d, kind=kind, refit=True)
+        return f, dict(d, kind=kind, refit=True, other_fit_between=other)
     if entry == "initialize_cp":
         o = {"init": gen.choice(rs, ["random", "svd"]), "non_negative": bool(rs.rand() < 0.3), "normalize_factors": bool(rs.rand() < 0.3)}
         Rr = Rk if o["init"] == "random" else max(shp) + 1
